@@ -767,7 +767,18 @@ class EntryGraph:
                 v = env.get(tgt)
                 if v is not None and v[0] == 't':
                     return ('i', v[1])
-                return ('dof', tgt)
+                return ('dof', tgt, self._nvariants(rv.get('ty', '')))
+            return None
+        if k == 'bin' and rv['op'] in ('Eq', 'Ne'):
+            a = self._int_op(env, cid, rv['a'])
+            b = self._int_op(env, cid, rv['b'])
+            if a is not None and b is not None:
+                if a[0] == 'i' and b[0] == 'i':
+                    r = a[1] == b[1]
+                    return ('b', r if rv['op'] == 'Eq' else not r)
+                for x, y in ((a, b), (b, a)):
+                    if x[0] == 'dof' and y[0] == 'i':
+                        return ('dofcmp', x[1], y[1], rv['op'] == 'Eq', x[2] if len(x) > 2 else 0)
             return None
         if k == 'ref':
             pl = rv['pl']
@@ -779,6 +790,29 @@ class EntryGraph:
                 if v is not None and v[0] == 'ref':
                     return v
             return None
+        return None
+
+    def _nvariants(self, ty):
+        ty = ty.lstrip('&').strip()
+        if ty.startswith('mut '):
+            ty = ty[4:]
+        for p in ('core::option::Option<', 'core::result::Result<', 'core::ops::ControlFlow<'):
+            if ty.startswith(p):
+                return 2
+        a = self.crate.adts.get(ty)
+        if a is not None:
+            return len(a['variants'])
+        return 0
+
+    def _int_op(self, env, cid, o):
+        if o['k'] == 'const':
+            m = re.match(r'^(?:const )?(-?\d+)_(isize|usize|[iu]\d+)$', o['v'].strip())
+            if m:
+                return ('i', int(m.group(1)))
+            return None
+        v = self._val_op(env, cid, o)
+        if v is not None and v[0] in ('i', 'dof'):
+            return v
         return None
 
     def _kill_frame(self, env, cid):
@@ -846,6 +880,21 @@ class EntryGraph:
                         continue
                     e2 = dict(env)
                     e2[('A', name)] = ('b', atomval)
+                    iv = 1 if truth else 0
+                    tgt = t['otherwise']
+                    for a, b in arms:
+                        if a == iv:
+                            tgt = b
+                    out.append((cid, tgt, e2, iv))
+            elif v is not None and v[0] == 'dofcmp':
+                cell, kk, is_eq, nvar = v[1], v[2], v[3], v[4]
+                for truth in (False, True):
+                    e2 = dict(env)
+                    holds = truth if is_eq else (not truth)     # does discr == kk hold on this branch
+                    if holds:
+                        e2[cell] = ('t', kk)
+                    elif nvar == 2 and kk in (0, 1):
+                        e2[cell] = ('t', 1 - kk)
                     iv = 1 if truth else 0
                     tgt = t['otherwise']
                     for a, b in arms:
